@@ -7,7 +7,8 @@ Model of poly/seqhash: boothLeastRotation, RotateSequence, Hash.
 slice is stored shifted by one (`g = failure + 1`, so Go's `-1` is `0`) to stay in `Nat`.
 Every index expression is bounds-checked: `none` = Go would panic (index out of range).
 The inner `for failure != -1 && …` loop is run with fuel `characterIndex + 1`
-(`booth_safe` in Props/C12 shows the fuel is never exhausted).
+(`booth_safe` in Props/C12Booth shows that no index is out of range and the fuel is never
+exhausted; `booth_least` there shows `rotateSequence s = some (Spec.leastRotation s)`).
 
 `hash` takes the digest function as a parameter (`blake`); the theorems hold for every
 digest, the correspondence check instantiates it with the Lean BLAKE3 of Base/Blake3.
